@@ -13,6 +13,10 @@
 (*   the model's (Expect); an operation the model reverts must be the last *)
 (*   one, the test must have reverted and logged nothing more; a history   *)
 (*   the model completes must have returned with no log left over.         *)
+(*   A record that is not a behaviour of the model is printed (REJECTED,   *)
+(*   with the model's expectation at the first disagreement) and skipped:  *)
+(*   one TLC run decides every record; POSTCONDITION Accepted holds iff the *)
+(*   whole trace was consumed and nothing was rejected.                    *)
 (*   numerics: [rt |-> "num", id, ty, op, mode, a, b, n, t2, logs, out]    *)
 (*   -- one step: NumExpect decides outcome and every logged value         *)
 (*   (exactly, or through the defining relation for sqrt / log).           *)
@@ -48,34 +52,14 @@ OpAgrees(r, x) ==
     IF x.ok THEN Matches(x.items, r.logs, p)
             ELSE k = Len(r.ops) /\ r.out = "revert" /\ p = Len(r.logs) + 1
 
-\* one operation of a collection history, through the model's own action
-TrOp ==
-    /\ l <= Len(Rec) /\ IsColl(Rec[l]) /\ k <= Len(Rec[l].ops)
-    /\ LET r == Rec[l]
-           o == r.ops[k]
-           x == Expect(kind, st, o)
-       IN /\ OpAgrees(r, x)
-          /\ p' = p + Len(x.items)
-          /\ Apply(o)
-    /\ k' = k + 1 /\ l' = l
-
 \* the history is over: a completed one returned and left no log unexplained
 EndAgrees(r) == alive => (r.out = "return" /\ p = Len(r.logs) + 1)
-TrEndColl ==
-    /\ l <= Len(Rec) /\ IsColl(Rec[l]) /\ k > Len(Rec[l].ops)
-    /\ EndAgrees(Rec[l])
-    /\ NextRecord
 
 NumAccepted(r) ==
-    LET x == NumExpect(r) IN
-    /\ r.out = x.out
-    /\ Len(r.logs) = Len(x.items)
-    /\ \A i \in 1..Len(x.items) : NumItemMatches(x.items[i], r.logs[i])
-
-TrNum ==
-    /\ l <= Len(Rec) /\ ~IsColl(Rec[l])
-    /\ NumAccepted(Rec[l])
-    /\ NextRecord
+    \E x \in {NumExpect(r)} :
+        /\ r.out = x.out
+        /\ Len(r.logs) = Len(x.items)
+        /\ \A i \in 1..Len(x.items) : NumItemMatches(x.items[i], r.logs[i])
 
 \* what the model expected where the trace stopped matching (for the report)
 RECURSIVE StAfter(_, _, _)
@@ -100,23 +84,28 @@ Reject(i, j) ==
     /\ PrintT(<<"REJECTED", i, j, Rec[i].id, Expected(i, j)>>)
     /\ TLCSet(3, TLCGet(3) + 1)
 
-TrRejectOp ==
+\* one operation of a collection history, through the model's own action
+TrOp ==
     /\ l <= Len(Rec) /\ IsColl(Rec[l]) /\ k <= Len(Rec[l].ops)
-    /\ ~OpAgrees(Rec[l], Expect(kind, st, Rec[l].ops[k]))
-    /\ Reject(l, k)
-    /\ NextRecord
-TrRejectEnd ==
+    /\ LET r == Rec[l] o == r.ops[k] IN
+       \E x \in {Expect(kind, st, o)} :
+          IF OpAgrees(r, x)
+          THEN /\ p' = p + Len(x.items)
+               /\ Apply(o)
+               /\ k' = k + 1 /\ l' = l
+          ELSE Reject(l, k) /\ NextRecord
+
+TrEndColl ==
     /\ l <= Len(Rec) /\ IsColl(Rec[l]) /\ k > Len(Rec[l].ops)
-    /\ ~EndAgrees(Rec[l])
-    /\ Reject(l, k)
-    /\ NextRecord
-TrRejectNum ==
-    /\ l <= Len(Rec) /\ ~IsColl(Rec[l])
-    /\ ~NumAccepted(Rec[l])
-    /\ Reject(l, 1)
+    /\ IF EndAgrees(Rec[l]) THEN TRUE ELSE Reject(l, k)
     /\ NextRecord
 
-TraceNext == TrOp \/ TrEndColl \/ TrNum \/ TrRejectOp \/ TrRejectEnd \/ TrRejectNum
+TrNum ==
+    /\ l <= Len(Rec) /\ ~IsColl(Rec[l])
+    /\ \E ok \in {NumAccepted(Rec[l])} : IF ok THEN TRUE ELSE Reject(l, 1)
+    /\ NextRecord
+
+TraceNext == TrOp \/ TrEndColl \/ TrNum
 TraceSpec == TraceInit /\ [][TraceNext]_tvars
 
 \* the whole trace was consumed and no record was rejected
